@@ -81,6 +81,12 @@ func comparatorLit(info *types.Info, fi *FuncInfo, e ast.Expr) *ast.FuncLit {
 	if id == nil {
 		return nil
 	}
+	// a named function of the same package: read as the literal with the same signature and body
+	if fn, ok := info.Uses[id].(*types.Func); ok && theWorld != nil {
+		if cf := theWorld.Funcs[fn]; cf != nil && cf.Decl.Body != nil && cf.Pkg == fi.Pkg && cf.Decl.Recv == nil {
+			return &ast.FuncLit{Type: cf.Decl.Type, Body: cf.Decl.Body}
+		}
+	}
 	defs := defsIn(info, fi.Decl, objOf(info, id))
 	if len(defs) != 1 {
 		return nil
